@@ -151,7 +151,7 @@ def oracle(ctx):
             while c is None:
                 c = partcase(ctx.rng)
             case, exp, _nt = c
-            enc, bom = ctx.rng.choice([('utf-8', b''), ('utf-8', b'\xef\xbb\xbf')])
+            enc, bom = ctx.rng.choice([('utf-8', b''), ('utf-8', b'\xef\xbb\xbf'), ('utf-16-le', b'\xff\xfe'), ('utf-16-be', b'\xfe\xff')])
             # the `encoding` option of the template decides the bytes of the result
             out_enc = ctx.rng.choice([None, 'utf-8', 'utf-16-le', 'latin-1'])
             if out_enc == 'latin-1':
@@ -163,8 +163,11 @@ def oracle(ctx):
             with open(path, 'wb') as f:
                 f.write(bom + case['src'].encode(enc))
             kw = {k: talgen.pyval(v, []) for k, v in case['vars']}
+            # several calls on one object: the bytes are the same every time (the file's own encoding is not the output encoding)
             try:
-                got = PageTextTemplateFile(path, **({'encoding': out_enc} if out_enc else {})).render(**kw)
+                tobj = PageTextTemplateFile(path, **({'encoding': out_enc} if out_enc else {}))
+                gots = [tobj.render(**kw) for _ in range(ctx.rng.choice([1, 2, 3]))]
+                got = gots[0] if all(g == gots[0] for g in gots) else gots
             except Exception as e:
                 got = 'raised %s' % type(e).__name__
             ctx.count('evaluations')
